@@ -50,6 +50,9 @@ type VM struct {
 	CancelFunc    *context.CancelFunc
 	Interrupts    map[uint]value.VmInterrupt
 	LimitsPerCore CoreLimits
+	// Set if the initialization code (e.g. the initializer of a global) failed: the globals are unusable,
+	// therefore `Wait` reports this exception to the host, regardless of which function was invoked.
+	initFailure *VMException
 }
 
 func MainFn() FunctionInvocation {
@@ -101,12 +104,9 @@ func NewVM(
 		nil,
 	)
 
-	if res.Exception != nil {
-		panic(fmt.Sprintf(
-			"Fatal: VM encountered exception during initialization code: %s",
-			res.Exception.Interrupt.Message()),
-		)
-	}
+	// An exception in the initialization code is the program's fault, not a bug in the host:
+	// it is not a reason to panic, the host receives it when it waits for the VM.
+	vm.initFailure = res.Exception
 
 	return vm
 }
@@ -454,6 +454,17 @@ func (self *VM) WaitNonConsuming() {
 }
 
 func (self *VM) Wait() (coreNum uint, i *value.VmInterrupt) {
+	coreNum, i = self.waitCores()
+
+	// The cores were only collected so that nothing is left running (they are cancelled since the initialization failed).
+	if self.initFailure != nil {
+		return self.initFailure.CoreNum, &self.initFailure.Interrupt
+	}
+
+	return coreNum, i
+}
+
+func (self *VM) waitCores() (coreNum uint, i *value.VmInterrupt) {
 	for {
 		self.Cores.Lock.RLock()
 		for _, core := range self.Cores.Cores {
